@@ -1311,8 +1311,10 @@ class FaultInjector:
         def native(value):
             # native syscalls cannot see the fake process: answer from the fake table instead
             def f(pid, *a):
-                if not real_exists(inj.prefix):
-                    raise ProcessLookupError(3, "No such process")
+                try:
+                    real_stat(inj.prefix)      # the unpatched stat: this probe is the harness's, not an OS access of psutil
+                except OSError:
+                    raise ProcessLookupError(3, "No such process") from None
                 return value
             return f
 
